@@ -310,9 +310,17 @@ pub fn apply(sim: &mut Sim, a: &Act) -> Applied {
                     sim.send_bytes(gi, b"\x00\xff garbage \r\r\n\n::\r\n");
                 }
                 Piece::Oversize => {
+                    // "above the limit" needs the limit this connection got when it was accepted; while the
+                    // client still waits in the accept queue that limit is not decided yet (the application
+                    // may change it first), so the piece is only meaningful on an admitted connection
+                    if sim.gens[gi].admission != crate::sim::Admission::Accepted && sim.limit_changed {
+                        return Applied::Skipped;
+                    }
                     sim.gens[gi].misbehaved = true;
                     let l = sim.gens[gi].limit_at_accept;
-                    let msg = format!("PUT /over HTTP/1.1\r\nContent-Length: {}\r\n\r\n", l + 1);
+                    // tagged like every request of this client, so that a server that yields it anyway is caught by attribution
+                    let (tag, _) = sim.next_request(gi, ReqKind::Get);
+                    let msg = format!("PUT {} HTTP/1.1\r\nContent-Length: {}\r\n\r\n", tag, l + 1);
                     sim.send_bytes(gi, msg.as_bytes());
                 }
             }
